@@ -97,6 +97,8 @@ def qbytes_mm_impl_cpu(activations: torch.Tensor, weights: torch.Tensor, output_
         version.parse(torch.__version__).release >= version.parse("2.4.0").release
         and activations.dtype == torch.int8
         and weights.dtype == torch.int8
+        # torch._int_mm (CPU) returns garbage for an inner dimension of 1 with transposed weights
+        and activations.shape[-1] > 1
     ):
         return qbytes_int_mm(activations, weights, output_scales)
     in_features = activations.shape[-1]
